@@ -10,7 +10,7 @@ from cpverif import spec as S
 from cpverif import strategies as G
 from cpverif.core import Ctx, Part, hyp_part
 from cpverif.lib import L
-from cpverif.model import TempoModel, ref_nps, td_us
+from cpverif.model import expected_notes, TempoModel, ref_nps, td_us
 
 RULE = (
     "Hypothesis charts with 1-2 tracks (0..25 notes, sustains, multi-segment tempo maps), absent tracks "
@@ -185,6 +185,22 @@ def check_case(ctx: Ctx, case) -> None:
                     continue
             if e_us is None:
                 e_us = max(td_us(n.end_timestamp) for n in notes)
+                # "the track's last note end" is what the WRITTEN notes say (latest tick + longest lane length, in
+                # the exact tempo map), not whatever end times the library has stored: judged with C01's tolerance
+                # for tracks written in tick order
+                items = spec["tracks"][h]
+                nticks = [it[0] for it in items if it[1] == "N"]
+                if nticks == sorted(nticks):
+                    try:
+                        exp_end = max(x["end_tick"] for x in expected_notes(spec["res"], items))
+                    except AssertionError:
+                        exp_end = None
+                    ends_us = sorted(td_us(n.end_timestamp) for n in notes)
+                    if exp_end is not None and not tm.ok(ends_us[-1], exp_end):
+                        ctx.fail("default-end", f"the last note end of {h} is tick {exp_end} = "
+                                                f"{float(tm.exact_us(exp_end)):.3f} us in the written chart, but the track's "
+                                                f"latest stored note end is {ends_us[-1]} us", rc)
+                        continue
             starts = [td_us(n.timestamp) for n in notes]
             want = ref_nps(starts, s_us, e_us)
             if want is None:
